@@ -8,6 +8,6 @@ func C11Workloads() []harness.Workload {
 		{Name: "router-macro", Quick: 20000, Thorough: 1000000, Run: RunRouterMacro},
 		{Name: "router-fine", Quick: 3000, Thorough: 200000, Run: RunRouterFine},
 		{Name: "echo", Quick: 1500, Thorough: 100000, Run: RunEcho},
-		{Name: "router-buffer", Quick: 6, Thorough: 60, Run: RunRouterBuffer},
+		{Name: "router-buffer", Quick: 8, Thorough: 80, Run: RunRouterBuffer},
 	}
 }
